@@ -131,7 +131,9 @@ buf2args(char *buf, size_t buf_size, size_t max_args, char **args, size_t *args_
 		}
 		args[ret] = cur_pos;
 		args_sizes[ret] = data_size;
-		(*(cur_pos + data_size)) = 0;
+		if ((cur_pos + data_size) < max_pos) { /* Do not write behind the buffer. */
+			(*(cur_pos + data_size)) = 0;
+		}
 		data_size ++;
 		ret ++;
 
